@@ -297,6 +297,16 @@ pub fn run(mut run: Run) -> i32 {
             Geometry::MultiLineString(MultiLineString(vec![LineString::new(vec![]), LineString::new(vec![c((0, 0)), c((2, 2))])])),
             Geometry::MultiPoint(MultiPoint(vec![Point(c((1, 2))), Point(c((1, 2)))])),
         ];
+        // members listed twice (in a row, and with another member between): the mod-2 boundary rule makes the end points of a doubled line interior
+        let (l1, l2) = (LineString::new(vec![c((0, 0)), c((2, 0))]), LineString::new(vec![c((2, 0)), c((2, 2)), c((0, 2))]));
+        deg.push(Geometry::MultiLineString(MultiLineString(vec![l1.clone(), l1.clone()])));
+        deg.push(Geometry::MultiLineString(MultiLineString(vec![l1.clone(), l1.clone(), l2.clone()])));
+        deg.push(Geometry::MultiLineString(MultiLineString(vec![l2.clone(), l1.clone(), l1.clone()])));
+        deg.push(Geometry::MultiLineString(MultiLineString(vec![l1.clone(), l2.clone(), l1.clone()])));
+        deg.push(Geometry::MultiLineString(MultiLineString(vec![l1.clone(), l1.clone(), l1.clone()])));
+        deg.push(Geometry::MultiPoint(MultiPoint(vec![Point(c((0, 0))), Point(c((0, 0))), Point(c((2, 1)))])));
+        deg.push(Geometry::MultiPolygon(MultiPolygon(vec![Polygon::new(LineString::new(vec![c((0, 0)), c((2, 0)), c((0, 2)), c((0, 0))]), vec![]), Polygon::new(LineString::new(vec![c((0, 0)), c((2, 0)), c((0, 2)), c((0, 0))]), vec![])])));
+        deg.push(Geometry::GeometryCollection(GeometryCollection(vec![Geometry::LineString(l1.clone()), Geometry::LineString(l1.clone())])));
         let nested = Geometry::GeometryCollection(GeometryCollection(vec![deg[1].clone(), Geometry::GeometryCollection(GeometryCollection(vec![])), deg[4].clone()]));
         deg.push(nested);
         for g in deg {
